@@ -232,7 +232,10 @@ def run_c16_case(case, history=None, state=None):
 
         async def wrapped(events, processing_log=None):
             box["captured"].append(processing_log)
-            return await orig(events, processing_log=processing_log)
+            box["n_events"] = None
+            new_events = await orig(events, processing_log=processing_log)
+            box["n_events"] = len(new_events)      # the v1 runtime raises "Too many events." above 100
+            return new_events
 
         app.runtime.generate_events = wrapped
         _APP_CACHE[key] = (app, llm, box)
@@ -244,6 +247,7 @@ def run_c16_case(case, history=None, state=None):
     box["case"] = case
     box["calls"] = []
     box["captured"] = []
+    box["n_events"] = None
     calls = box["calls"]
     captured = box["captured"]
 
@@ -275,6 +279,7 @@ def run_c16_case(case, history=None, state=None):
     obs["calls"] = [list(c) for c in calls]
     obs["llm"] = list(llm.tasks)
     obs["plog"] = abstract_plog(captured[-1]) if captured and captured[-1] is not None else None
+    obs["n_events"] = box.get("n_events")
     return obs
 
 
